@@ -12,6 +12,8 @@ def run(ck: Checker):
     ck.rule('C06-4', 'slot return: unconditional ledger pop per message, exactly one signal of the admission condition per popped entry, notify under the lock, gather is the only deleter (EXITS+COUNT+WHO)', minimum=8)
     ck.rule('C06-5', 'single writer: the admission function is the only place that stores into the ledger (WHO)', minimum=2)
     ck.rule('C06-6', "bounded wait: the wait for a free slot carries a timeout derived from the caller's timeout", minimum=2)
+    ck.rule('C06-7', 'reject at once: with backpressure no wait on the admission condition is reachable (GUARD on the backpressure flag)', minimum=2)
+    ck.rule('C06-8', 'time remaining: a wait inside the re-check loop is bounded by a value recomputed from the clock in that pass (FRESH)', minimum=2)
     for name in server.SERVERS:
         s = server.discover(ck.repo, name)
         server.check_retest(ck, 'C06-1', s)
@@ -20,3 +22,5 @@ def run(ck: Checker):
         server.check_slot_return(ck, 'C06-4', s)
         server.check_single_writer(ck, 'C06-5', s)
         server.check_bounded_wait(ck, 'C06-6', s)
+        server.check_reject_at_once(ck, 'C06-7', s)
+        server.check_remaining_time(ck, 'C06-8', s)
